@@ -309,7 +309,7 @@ pub fn cases(tier: Tier) -> Vec<GCase> {
 
 pub fn main(tier: Tier, replay: Option<serde_json::Value>) -> i32 {
     let mut run = Run::new("C14", tier, "model_checking");
-    run.rule = "cases = (generator, scalar witness incl. r_J-1, r_J, r_J+1, 2^252-1, non-canonical, random) x prover-chosen signed-digit vectors through the seam: honest width-2 NAF, plain binary, every single-digit deviation, same-integer rewrites, encodings of s+q, s+-r_J, s+2^253, plus bound-1 deviations of the widget's allocations (accumulators, xy_alpha, canonicity range checks); decided by M1; oracle: satisfiable iff scalar < r_J and the digits (three leading zeros) encode it as an integer; every satisfying assignment returns [s]G (own affine arithmetic)".into();
+    run.rule = "cases = (generator, scalar witness incl. r_J-1, r_J, r_J+1, 2^252-1, non-canonical, random) x prover-chosen signed-digit vectors through the seam: honest width-2 NAF, plain binary, every single-digit deviation, same-integer rewrites, encodings of s+q, s+-r_J, s+2^253, plus bound-1 deviations of the widget's allocations (accumulators, xy_alpha, canonicity range checks); decided by M1; oracle: satisfiable iff scalar < r_J and the digits (three leading zeros) encode it as an integer; every satisfying assignment returns [s]G (own affine arithmetic); non-initial states: the scalar range-checked beforehand to 64 / 251 / 252 / 253 / 254 bits or already multiplied by the same / another generator".into();
     let cs = cases(tier);
     let cache = ConfirmCache::new(crate::setup::pp(1 << 10));
     if let Some(r) = replay {
